@@ -46,8 +46,8 @@ Definition isa_shows (img : list Z) (inp : list Z) (n : nat) (b : behaviour) : P
        the front-end theorem of C07 (Properties_C07.C07_front_preserves_run_partial: CreateSymbols, ConstProp and
        OptimiseExpr preserve XSem's behaviour of whole programs), so that the statement starts from the SOURCE
        program; what remains excluded on that side are the side conditions of that theorem: names_ok (no procedure
-       named ""), front_swap_safe (no `>` / `<=` with two non-constant operands one of which contains a call; no
-       maximal constant subexpression topped by ~= >= > <=; no unary minus of a non-constant operand; no call spelled
+       named ""), front_swap_safe (no `>` / `<=` whose RIGHT operand contains a call or system call while the left one
+       is not a literal-like constant; no string-literal right operand under a left operand with calls; no call spelled
        4294967295(..)), and a behaviour within a quarter of the default fuel;
      - the frame numbers (size, usable slots, outgoing words per procedure) and the order of the constant pool are a
        parameter `prm : params` (xcmp computes them itself; tools/c01.py reads them off its listing): the theorem
@@ -59,7 +59,8 @@ Definition isa_shows (img : list Z) (inp : list Z) (n : nat) (b : behaviour) : P
        (console input, end of input = 255); function calls and get may stand as the whole right-hand side of an
        assignment, the whole value of a return or the whole condition of an if / while, or at the bottom of the LEFT
        spine of such an expression under + - = < ~ with simple right operands (literals, variables); such an expression
-       may also be the FIRST actual of a procedure-call statement whose other actuals are simple; constants that do not fit an immediate
+       may also be the FIRST actual of a procedure-call statement whose other actuals are simple, or the byte of a put
+       statement with a simple stream; constants that do not fit an immediate
        operand must be listed in the pool parameter -- otherwise model_compile returns None;
      - model_compile's built-in VALIDATION succeeded (it returns None otherwise): the ISA's decoder reads the stub
        and every procedure's code at the layout's label positions, the loaded words hold those bytes, the stack
@@ -166,7 +167,9 @@ Print Assumptions C01_expr_fragment_partial.
    CALL AS FIRST ACTUAL (cargs1): in a procedure-call statement p(e1, e2, .., en) the FIRST actual may be such a left-spine
    expression when e2..en are simple (literals, variables, array names): genCallActuals computes e1 first and saves it in
    the first temporary, loadActuals copies it to its outgoing word (LDAM 1; LDAI t; LDBM 1; STAI k) and then stores the
-   simple actuals -- XSem's order.  Calls in later actuals, in actuals of function calls and of system calls are outside.  `cs` models StmtCodeGen and genSysCall (call-free
+   simple actuals -- XSem's order.  The same for the system call put as a statement: in `put(e, s)` the byte e may be
+   such a left-spine expression when the stream s is simple (`put(f(x) + 48, 0)`).  Calls in later actuals, in actuals
+   of function calls, of exit and of get are outside.  `cs` models StmtCodeGen and genSysCall (call-free
    actuals) as handed to OptimiseDirectives, i.e. BEFORE its three peephole rewrites (tools/c01.py ties
    prologue ++ cs body ++ epilogue, with the peepholes applied by the executable `peephole`, to `xcmp -S`).
    stmt_ok f: whatever XSem.exec with fuel f answers for the statement from a state st related to the memory m
@@ -186,7 +189,7 @@ Print Assumptions C01_expr_fragment_partial.
    Layout hypotheses: temporaries and outgoing area (sp .. sp+og-1) inside memory, unprotected, not word 1,
    disjoint from each other and from the variables; distinct variables have distinct words; sp+2 usable by `stop`.
    Missing for C01_full: calls (and get) in a right operand, under and / or / unary minus, in subscripts, and as actuals
-   other than the first actual of a procedure-call statement
+   other than the first actual of a procedure-call statement or the byte of a put statement
    (procedure-call statements, function calls as a whole right-hand side and on the left spine: see above, (4c), (4d)),
    local arrays and strings, the peephole pass, and the layout of whole programs. *)
 Theorem C01_stmt_fragment_partial :
@@ -381,25 +384,25 @@ Print Assumptions C01_cproc_lowered_shape.
        func fd(val k) is if k = 0 then return 7 else return fd(k - 1)
        proc cd(val n, array b) is var t;
          { t := n + 48; put(t, 0); g := g + n; b[n] := t; if n = 0 then skip else cd(n - 1, b) }
-       proc main() is { g := 0; cd(fd(0) - 4, a); g := fd(g) + g; g := g + a[2]; ch := get(0) + 1; put(ch, 0) }
+       proc main() is { g := 0; cd(fd(0) - 4, a); g := fd(g) + g; g := g + a[2]; ch := get(0) + 1; put((fd(0) + ch) - 7, 0) }
    -- a recursive procedure with a value formal, an array formal and a local that assigns elements of the global array
    it was handed by address and passes it on, a recursive
-   function used as `return f(..)`, as the left operand in `x := f(..) + x` and in the first actual `cd(fd(0) - 4, a)`, a read
+   function used as `return f(..)`, as the left operand in `x := f(..) + x`, in the first actual `cd(fd(0) - 4, a)` and in the byte of `put((fd(0) + ch) - 7, 0)`, a read
    of the array, and one byte read from the console by get (the left operand of `get(0) + 1`) and written back.  XConstProp.front only
    turns put(..) and get(..) into the system calls (C01_demo_front); with the console bytes 66 67 XSem gives it the
    outputs "3210C" and one byte consumed (C01_demo_spec).
    Its image is laid out as xcmp does (BR _start; DATA 199993; g; a's word = 199996; _start: LDAP _exit; BR main; ..)
    from the model's lowered code -- prologue ++ cs body ++ exit label ++ epilogue, BEFORE the peepholes, which is the
-   code (4d) speaks of -- by the assembler model AsmLayout.assemble_directives (C01_demo_assembled: 212 bytes).  The
+   code (4d) speaks of -- by the assembler model AsmLayout.assemble_directives (C01_demo_assembled: 228 bytes).  The
    ISA runs that image from reset to the spec's behaviour (C01_demo_image_runs, by computation).
    prog_hyps is the conjunction of the hypotheses of C01_calls_partial, word for word (C01_calls_of_hyps derives the
-   theorem from it); C01_calls_nonvacuous_hyps: it holds for the demo, with P = the code words 6..52, m0 = the loaded
+   theorem from it); C01_calls_nonvacuous_hyps: it holds for the demo, with P = the code words 6..56, m0 = the loaded
    image, lab = the label positions of the layout, stack_lo = 1000, stack_hi = 199996, maxframe = 6, depth bound 10.  The code_at
    hypotheses are established by running the ISA's own decoder over the image (XCodegenImage.code_chk_sound through
    C01_instr_at_of_decode).
    C01_calls_nonvacuous_run: the theorem applied.  From main's frame (mem[1] = 199988, g and ch unassigned, a empty,
    the console holding 66 67) the ISA runs the code of main's body
-   `g := 0; cd(fd(0) - 4, a); g := fd(g) + g; g := g + a[2]; ch := get(0) + 1; put(ch, 0)` at bytes [140, 204) -- the
+   `g := 0; cd(fd(0) - 4, a); g := fd(g) + g; g := g + a[2]; ch := get(0) + 1; put((fd(0) + ch) - 7, 0)` at bytes [140, 219) -- the
    call of fd whose result less 4 is the first actual of cd, four nested
    activations of cd, each with prologue, output, an element assignment through the array formal, recursive call
    handing the array on, and epilogue, then seven of
@@ -425,7 +428,7 @@ Proof. exact demo_hyps. Qed.
 Print Assumptions C01_calls_nonvacuous_hyps.
 
 Theorem C01_calls_nonvacuous_run : forall a b inp, console inp = [66; 67] -> exists evs a' b' m',
-  runs inp (mk 140 a b 0 (wr demo_m0 1 199988)) evs {| console := [67]; files := files inp |} (mk 204 a' b' 0 m') /\
+  runs inp (mk 140 a b 0 (wr demo_m0 1 199988)) evs {| console := [67]; files := files inp |} (mk 219 a' b' 0 m') /\
   writes evs = [(0, 51); (0, 50); (0, 49); (0, 48); (0, 67)] /\
   rd m' 1 = 199988 /\ rd m' 2 = 63 /\ rd m' 4 = 67 /\ rd m' 199998 = 50.
 Proof. exact demo_main_body_runs. Qed.
@@ -459,10 +462,10 @@ Proof. vm_compute. repeat split. Qed.
    from the validation (the_hyps); the exit stub, or the program's own exit.
    See the comment at C01_full for exactly what this adds to the full statement.
    C01_program_nonvacuous: the theorem applied to the demo program of (4e) -- its validated image demo_image
-   (53 words), started with the console bytes 66 67, shows the spec's behaviour: outputs "3210C", one byte consumed,
+   (57 words), started with the console bytes 66 67, shows the spec's behaviour: outputs "3210C", one byte consumed,
    exit 0; C01_program_nonvacuous_eof: started with an empty console it writes "3210" and the byte 0 (get answers 255 at
    the end of the input, ch = 256) and consumes nothing.  C01_demo_model_image: model_compile returns that image.
-   demo_model_image_opt (XCodegenDemo.v): with opt = true it returns 51 words, which tools/c01.py re-checks against
+   demo_model_image_opt (XCodegenDemo.v): with opt = true it returns 55 words, which tools/c01.py re-checks against
    the binary the real xcmp writes for the same source (coq_demo_image_tie), and does the same for generated
    fragment programs (program_model_tie: byte-identical images counted in the evidence). *)
 Theorem C01_program_partial : forall prm : params, C01_full (model_compile prm false).
